@@ -235,7 +235,17 @@ impl Expr {
                             Cow::Owned(lhs.for_type(flags)?)
                         }
                         index @ Expr::Index { .. } => Cow::Owned(index.for_type(flags)?),
-                        Expr::DotLookup { expected_type, .. } => Cow::Borrowed(expected_type),
+                        Expr::DotLookup { lhs: root, expected_type, .. } => {
+                            if let Expr::Value(Value::Ident(ident)) = root.as_ref() {
+                                if ident.is_const() {
+                                    bail!(
+                                        "cannot reassign using {op} through {}, which is const",
+                                        ident.name()
+                                    )
+                                }
+                            }
+                            Cow::Borrowed(expected_type)
+                        }
                         _ => bail!("invalid left operand for {op} (cannot apply to {})", lhs.for_type(flags)?),
                     }
                 } else {
